@@ -255,6 +255,47 @@ def fields_of_type(crate, adt, pred):
 _FWD = {}
 
 
+def _multi_forwarder(crate, f):
+    byte_params = [i for i in range(1, f.arg_count + 1) if f.local_ty(i) in ("&[u8]", "&str")]
+    if not byte_params or f.impl_trait or f.is_pub:
+        return None
+    parts = [f] + crate.closures_of(f.path)
+    n = 0
+    for g in parts:
+        gd = defs_of(g)
+        for bi, t in g.calls():
+            if g.is_cleanup(bi):
+                continue
+            c = t["callee"]
+            names = facts.callee_names(t)
+            if c.get("trait") == "std::io::Write":
+                if "std::io::Write::write_all" not in names or len(t["args"]) < 2:
+                    return None
+                o = origin(g, gd, t["args"][1])
+                if g is f:
+                    if not (o["k"] == "param" and o["l"] in byte_params):
+                        return None
+                else:
+                    # a capture of the closure: `(*_1).k`
+                    if not (o["k"] == "place" and o["pl"]["l"] == 1):
+                        return None
+                n += 1
+            elif c.get("resolved_crate", c.get("crate")) == crate.name:
+                return None          # calls other code of the crate: not a pure forwarder
+    if n < 2:
+        return None
+    # the closures capture only parameters of the helper
+    fd = defs_of(f)
+    for b in f.blocks:
+        for st in b["stmts"]:
+            if st["k"] == "assign" and st["rv"]["k"] == "agg" and st["rv"].get("agg") == "closure":
+                for op in st["rv"].get("fields") or []:
+                    o = origin(f, fd, op)
+                    if o["k"] != "param":
+                        return None
+    return byte_params[0]
+
+
 def sink_forwarders(crate):
     """Local helpers of print.rs that do nothing but forward their byte-slice argument to io::Write::write_all
     (`fn put(w, bytes) -> io::Result<()> { w.write_all(bytes) }`): {path: 1-based index of the bytes parameter}.
@@ -268,6 +309,11 @@ def sink_forwarders(crate):
             continue
         calls = [(bi, t) for bi, t in f.calls() if not f.is_cleanup(bi)]
         if len(calls) != 1 or "std::io::Write::write_all" not in facts.callee_names(calls[0][1]):
+            # several parameters written one after the other (`write_both(w, first, second)`), possibly from a closure
+            # handed to `and_then`: still nothing but its own byte-slice parameters reaches the sink
+            idx = _multi_forwarder(crate, f)
+            if idx is not None:
+                out[f.path] = idx
             continue
         if any(b["term"]["k"] == "switch" for bi, b in enumerate(f.blocks) if not f.is_cleanup(bi)):
             continue
@@ -319,3 +365,36 @@ def copy_of_param(fn, l, param):
             continue
         return False
     return False
+
+
+_ALWAYS_ERR = {}
+
+
+def always_err_fns(crate):
+    """Local functions with a Result return type that only ever build `Err(..)` (`fn fail<T>(&mut self, code) ->
+    Result<T> { Err(self.error(code)) }`): a call of one is an error return."""
+    key = id(crate)
+    if key not in _ALWAYS_ERR:
+        out = set()
+        for f in crate.fns:
+            if f.kind == "closure" or not f.local_ty(0).startswith("std::result::Result<"):
+                continue
+            aggs = [st["rv"] for b in f.blocks for st in b["stmts"] if st["k"] == "assign" and st["rv"]["k"] == "agg"
+                    and st["rv"].get("adt") == "std::result::Result"]
+            ret_calls = [t for _bi, t in f.calls() if not t["dest"]["p"] and t["dest"]["l"] == 0]
+            if aggs and all(a.get("variant") == 1 for a in aggs) and not ret_calls:
+                out.add(f.path)
+        # one level of forwarding: `peek_fail_or_eof` that returns what `peek_fail` returns on every path
+        for _ in range(2):
+            for f in crate.fns:
+                if f.path in out or f.kind == "closure" or not f.local_ty(0).startswith("std::result::Result<"):
+                    continue
+                aggs = [st["rv"] for b in f.blocks for st in b["stmts"] if st["k"] == "assign" and st["rv"]["k"] == "agg"
+                        and st["rv"].get("adt") == "std::result::Result" and st["place"]["l"] == 0]
+                ret_calls = [t for _bi, t in f.calls() if not t["dest"]["p"] and t["dest"]["l"] == 0]
+                if ret_calls and all(a.get("variant") == 1 for a in aggs) and all(
+                        (t["callee"].get("resolved") or t["callee"].get("path")) in out
+                        or "std::ops::FromResidual::from_residual" in facts.callee_names(t) for t in ret_calls):
+                    out.add(f.path)
+        _ALWAYS_ERR[key] = out
+    return _ALWAYS_ERR[key]
